@@ -13,7 +13,7 @@ ASSUMPTIONS = [
     "databases that fail on reads or fail silently, and non-dict back ends, are outside the claim",
 ]
 BOUNDS = {
-    "quick": "A: every 2nd contents set of the 135-set family, B: another family member; ops {set,[]=,delete,del} x 7 keys x 4 values; failing write index in -1..5; direct and one-op squash_changes batch alternate",
+    "quick": "A: every 2nd contents set of the 135-set family, B: another family member; ops {set,[]=,delete,del} x 7 keys x 4 values; failing write index in -1..5; direct / one-op squash_changes batch / batch preceded by an earlier committed batch / batch that first re-creates the other trie's contents alternate over the sets",
     "thorough": "every 2nd set of the 10-key thorough family, 7-value pool, modes alternating",
 }
 OUTSIDE = "more than two tries on one database; multi-operation batches with failing commits (C05); failure positions beyond the 6th write"
@@ -29,7 +29,7 @@ def jobs(tier):
     for mi in range(n):
         if mi % 2:
             continue
-        modes = [["direct", "batch"][(mi // 2) % 2]]
+        modes = [["batch_recreate", "direct", "batch", "batch2"][(mi // 2) % 4]]
         for mode in modes:
             out.append({"module": "vf.props.hexhist", "fn": "h_hist", "cfg": dict(base, mi=mi, mi2=(mi * 5 + 17), mode=mode), "pct": 1500, "ppt": 30})
     out.append({"module": "vf.props.hexhist", "fn": "r_hist", "cfg": dict(base, mi=min(60, n - 1), mi2=3, mode="direct"), "pct": 600, "ppt": 30, "kind": "reach"})
